@@ -71,6 +71,16 @@ CHECKS = {
             'parameter must carry exactly one sync watcher of the target iff a live link depends on it.',
             'explicit-state BFS over operation histories of the real code vs. a reference model of live links',
             BASE_NOTE),
+    'C09': ('model_checking', 'DESIGN.md §3 C09',
+            'Part A: for every binary operator (arithmetic, shifts, bitwise, @, divmod, comparisons) every ordered pair of 16 operands in the forms '
+            'expr op const, const op expr (reflected dispatch) and expr op expr, and every unary form, .rx.value must equal the plain-Python result in '
+            'value and type or raise the same exception class.  Part B: ~190 expression trees of one and two operation nodes over two rx roots, two '
+            'Parameters, a bind function and a constant (shared sub-expression objects, an input used as pipeline root and as argument, nested where / '
+            'pipe / and_ / not_, indexing with a reactive index, map, len, in_, is_, attribute and method access), each with and without an .rx.watch '
+            'callback: every history of <= 3 input updates (incl. error-inducing values) and reads is replayed on a freshly built expression and compared '
+            'with a direct evaluator over the same tree, followed by a closing read and a recovery check after errors.',
+            'operator table (bounded-exhaustive) + exhaustive enumeration of expression trees x update/read histories on the real code vs. a plain-Python evaluator',
+            BASE_NOTE + ' tests/testreactive.py is skipped in this sandbox (numpy absent), so the pinned suite does not exercise reactive.py.'),
     'C10': ('model_checking', 'DESIGN.md §3 C10',
             'On a hand-stepped virtual asyncio loop (the harness pops every ready callback itself): for every program of <= 3 (thorough 4) assignments '
             'to an allow_refs parameter drawn from {coroutine function (distinct or one shared function object), async generator with two gated yields, '
